@@ -97,6 +97,12 @@ static void run_case(const vh::Case &cs) {
                             } catch (const TestExc &e) {
                                 r.kind = K_EXC;
                                 r.val = e.code;
+                            } catch (const DerivedCanceled &) {
+                                r.kind = K_EXC;
+                                r.val = 1002;
+                            } catch (const await_canceled_exception &) {
+                                r.kind = K_EXC;
+                                r.val = 1001;
                             } catch (const no_more_values_exception &) {
                                 r.kind = K_ENDT;
                             } catch (const value_not_ready_exception &) {
